@@ -345,6 +345,25 @@ def c20_cases(tier):
     for mode in ("ok", "latin1-label", "no-ctype"):
         yield "non-ASCII reply, transport %s" % mode, non_ascii(mode)
 
+    # without --output the reply goes to stdout, and stdout is nothing but that JSON document - whatever flags are given
+    for flags in ([], ["--no-ssl"], ["--no-ssl", "--is-one-of"], ["--header", "X-A: b", "--authorization", "t"]):
+        def thunk_so(flags=flags):
+            srv = _serve("ok", payload)
+            try:
+                res = run_cli(["introspect-schema", "http://127.0.0.1:%d/graphql" % srv.server_address[1]] + flags, timeout=30)
+            finally:
+                srv.shutdown()
+            if res["exit"] != 0:
+                return "introspect-schema %s without --output exits %s: %s" % (flags, res["exit"], res["stderr"][-120:])
+            try:
+                got = json.loads(res["stdout"])
+            except Exception as e:
+                return "introspect-schema %s without --output: stdout is not a JSON document (%s): %r" % (flags, str(e)[:60], res["stdout"][:80])
+            if got != json.loads(payload):
+                return "introspect-schema %s without --output: stdout is not the server's JSON" % flags
+            return None
+        yield "stdout %s" % " ".join(flags), thunk_so
+
     for mode in ("garbage", "400json", "404", "500", "close", "bad-utf8"):
         def thunk(mode=mode):
             res, seen, out = run(mode, [], existing="KEEP")
